@@ -21,6 +21,7 @@ import (
 
 	c "github.com/goplus/llgo/runtime/internal/clite"
 	"github.com/goplus/llgo/runtime/internal/clite/pthread/sync"
+	"github.com/goplus/llgo/runtime/internal/runtime/math"
 )
 
 // -----------------------------------------------------------------------------
@@ -46,6 +47,10 @@ type Chan struct {
 }
 
 func NewChan(eltSize, cap int) *Chan {
+	mem, overflow := math.MulUintptr(uintptr(eltSize), uintptr(cap))
+	if overflow || mem > maxAlloc || cap < 0 {
+		panic(errorString("makechan: size out of range"))
+	}
 	ret := new(Chan)
 	if cap > 0 {
 		ret.data = AllocU(uintptr(cap * eltSize))
